@@ -97,7 +97,11 @@ func bitField(nd data.UnixFSData) (bitfield.Bitfield, error) {
 	}
 	// an empty shard written by the reference implementation has no bitfield
 	if nd.FieldData().Exists() {
-		bf.SetBytes(nd.FieldData().Must().Bytes())
+		bits := nd.FieldData().Must().Bytes()
+		if len(bits) > fanout/8 {
+			return nil, fmt.Errorf("hamt bitfield (%d bytes) exceeds width (%d)", len(bits), fanout)
+		}
+		bf.SetBytes(bits)
 	}
 	return bf, nil
 }
